@@ -181,6 +181,8 @@ m('M107-pp-window-shifted', ['C16'], (P, "openings.PartialProducts[challengeNum*
 m('M108-innerproduct-empty-zero', ['C08'], (Q, "\tacc := startingAcc\n\tfor i := 0; i < len(pairs); i++ {", "\tif len(pairs) == 0 {\n\t\treturn ZeroExtension()\n\t}\n\tacc := startingAcc\n\tfor i := 0; i < len(pairs); i++ {"))
 m('M109-submul-ignores-b', ['C08'], (Q, "\tdifference := p.SubExtensionNoReduce(a, b)\n\tproduct := p.MulExtensionNoReduce(difference, c)", "\tdifference := p.SubExtensionNoReduce(a, ZeroExtension())\n\tproduct := p.MulExtensionNoReduce(difference, c)"))
 
+m('M110-merkle-flags-anded', ['C12', 'C01'], (F, "\tmerkleCap variables.FriMerkleCap,\n\tproof *variables.FriMerkleProof,\n) {\n\tcurrentDigest := f.poseidonBN254Chip.HashOrNoop(leafData)", "\tmerkleCap variables.FriMerkleCap,\n\tproof *variables.FriMerkleProof,\n) {\n\tf.api.AssertIsEqual(f.merkleProofToCapMismatch(leafData, leafIndexBits, capIndexBits, merkleCap, proof), 0)\n}\n\nfunc (f *Chip) merkleProofToCapMismatch(\n\tleafData []gl.Variable,\n\tleafIndexBits []frontend.Variable,\n\tcapIndexBits []frontend.Variable,\n\tmerkleCap variables.FriMerkleCap,\n\tproof *variables.FriMerkleProof,\n) frontend.Variable {\n\tcurrentDigest := f.poseidonBN254Chip.HashOrNoop(leafData)"), (F, "\tf.api.AssertIsEqual(currentDigest, merkleCapEntry)\n}", "\treturn f.api.Sub(1, f.api.IsZero(f.api.Sub(currentDigest, merkleCapEntry)))\n}"), (F, "\tfor i := 0; i < len(initialMerkleCaps); i++ {\n\t\tevals := proof.EvalsProofs[i].Elements", "\tmismatch := frontend.Variable(0)\n\tfor i := 0; i < len(initialMerkleCaps); i++ {\n\t\tevals := proof.EvalsProofs[i].Elements"), (F, "\t\tf.verifyMerkleProofToCapWithCapIndex(evals, xIndexBits, capIndexBits, cap, &merkleProof)\n\t}\n}", "\t\tmismatch = f.api.And(mismatch, f.merkleProofToCapMismatch(evals, xIndexBits, capIndexBits, cap, &merkleProof))\n\t}\n\tf.api.AssertIsEqual(mismatch, 0)\n}"))
+
 # ---- behaviour-preserving refactors: must stay silent on every property
 ALL = ['C01', 'C02', 'C03', 'C04', 'C05', 'C06', 'C07', 'C08', 'C09', 'C10', 'C11', 'C12', 'C13', 'C14', 'C15', 'C16', 'C17', 'C18', 'C19', 'C20']
 m('R02-inline-assertLeadingZeros', [], (F, "\tf.assertLeadingZeros(friChallenges.FriPowResponse, f.friParams.Config)\n", "\tf.gl.RangeCheckWithMaxBits(friChallenges.FriPowResponse, 64-f.friParams.Config.ProofOfWorkBits)\n"))
@@ -242,6 +244,7 @@ m('R57-muladdext-inline', [], (Q, "\tproduct := p.MulExtensionNoReduce(a, b)\n\t
 m('R58-reducewithpowers-forward-index', [], (Q, "\tfor i := len(terms) - 1; i >= 0; i-- {\n\t\tsum = p.AddExtensionNoReduce(\n\t\t\tp.MulExtensionNoReduce(\n\t\t\t\tsum,\n\t\t\t\tscalar,\n\t\t\t),\n\t\t\tterms[i],\n\t\t)", "\tfor k := 0; k < len(terms); k++ {\n\t\ti := len(terms) - 1 - k\n\t\tsum = p.AddExtensionNoReduce(\n\t\t\tp.MulExtensionNoReduce(\n\t\t\t\tsum,\n\t\t\t\tscalar,\n\t\t\t),\n\t\t\tterms[i],\n\t\t)"))
 m('R60-pp-cursor-form', [], (P, "\topenings variables.OpeningSet,\n) []gl.QuadraticExtensionVariable {\n\tglApi := gl.New(p.api)\n\tnumPartProds := p.commonData.NumPartialProducts", "\topenings variables.OpeningSet,\n\troundPartialProducts []gl.QuadraticExtensionVariable,\n) []gl.QuadraticExtensionVariable {\n\tglApi := gl.New(p.api)\n\tnumPartProds := p.commonData.NumPartialProducts"), (P, "\tproductAccs = append(productAccs, openings.PartialProducts[challengeNum*numPartProds:(challengeNum+1)*numPartProds]...)", "\tproductAccs = append(productAccs, roundPartialProducts...)"), (P, "\tfor i := uint64(0); i < p.commonData.Config.NumChallenges; i++ {\n\t\t// L_0(zeta) (Z(zeta) - 1) = 0", "\tppCursor := openings.PartialProducts\n\tfor i := uint64(0); i < p.commonData.Config.NumChallenges; i++ {\n\t\t// L_0(zeta) (Z(zeta) - 1) = 0"), (P, "\t\t\tp.checkPartialProducts(numeratorValues, denominatorValues, i, openings)...,\n\t\t)\n", "\t\t\tp.checkPartialProducts(numeratorValues, denominatorValues, i, openings, ppCursor[:p.commonData.NumPartialProducts])...,\n\t\t)\n\t\tppCursor = ppCursor[p.commonData.NumPartialProducts:]\n"))
 m('R61-pp-window-sum-form', [], (P, "openings.PartialProducts[challengeNum*numPartProds:(challengeNum+1)*numPartProds]...", "openings.PartialProducts[challengeNum*numPartProds:challengeNum*numPartProds+numPartProds]..."))
+m('R62-merkle-flag-and-wrapper', [], (F, "\tmerkleCap variables.FriMerkleCap,\n\tproof *variables.FriMerkleProof,\n) {\n\tcurrentDigest := f.poseidonBN254Chip.HashOrNoop(leafData)", "\tmerkleCap variables.FriMerkleCap,\n\tproof *variables.FriMerkleProof,\n) {\n\tf.api.AssertIsEqual(f.merkleProofToCapMismatch(leafData, leafIndexBits, capIndexBits, merkleCap, proof), 0)\n}\n\nfunc (f *Chip) merkleProofToCapMismatch(\n\tleafData []gl.Variable,\n\tleafIndexBits []frontend.Variable,\n\tcapIndexBits []frontend.Variable,\n\tmerkleCap variables.FriMerkleCap,\n\tproof *variables.FriMerkleProof,\n) frontend.Variable {\n\tcurrentDigest := f.poseidonBN254Chip.HashOrNoop(leafData)"), (F, "\tf.api.AssertIsEqual(currentDigest, merkleCapEntry)\n}", "\treturn f.api.Sub(1, f.api.IsZero(f.api.Sub(currentDigest, merkleCapEntry)))\n}"))
 
 if __name__ == '__main__':
     import json, sys
